@@ -508,6 +508,10 @@ macro_rules! core_variant {
                         out.fact("C09.failed_eval_leaves_no_residuals", o.resid.is_none(), "residuals() is Some after eval failed".into());
                         out.fact("C09.failed_eval_leaves_no_coefficients", o.coeff.is_none(), "linear_coefficients() is Some after eval failed".into());
                         out.fact("C09.failed_eval_leaves_no_jacobian", o.jac.is_none(), "jacobian() is Some after eval failed".into());
+                        // the state at the failure: the parameters the (accepting) model was given, not an earlier vector
+                        for q in 0..p {
+                            out.eq("C09.params_at_the_failure", format!("params[{q}]"), o.params[q], inp.alphas[1][q]);
+                        }
                         let back = DVector::from_fn(p, |q, _| T::var(&format!("alphaB_{q}"), 5, 2 + q as i64));
                         problem.set_params(&back);
                         last_alpha = back;
